@@ -63,6 +63,12 @@ theorem act_live_other (rc : C → K → A → R) (s : MSt K A C R) (t t' : Tid)
     · split
       · exact h
       · split <;> exact h
+    · split
+      · exact h
+      · split <;> exact h
+    · split
+      · exact h
+      · split <;> exact h
 
 theorem act_live_other' (rc : C → K → A → R) (s : MSt K A C R) (t t' : Tid) (g : Gid) (c : C)
     (h : (act rc s t).live g = some (t', c)) (ht : t' ≠ t) : s.live g = some (t', c) := by
@@ -93,6 +99,12 @@ theorem act_live_other' (rc : C → K → A → R) (s : MSt K A C R) (t t' : Tid
         · simpa [upd_other _ _ _ _ e] using h
       · exact h
     · split at h <;> exact h
+    · split at h
+      · exact h
+      · split at h <;> exact h
+    · split at h
+      · exact h
+      · split at h <;> exact h
     · split at h
       · exact h
       · split at h <;> exact h
@@ -136,6 +148,16 @@ theorem act_memo_other (rc : C → K → A → R) (s : MSt K A C R) (t t' : Tid)
     · split
       · rfl
       · split <;> simp only [look_lookup_fst]
+    · split
+      · rfl
+      · split <;> simp only [look_lookup_fst]
+    · split
+      · rfl
+      · rename_i c2 ho
+        split
+        · rfl
+        · rename_i m2 hs
+          exact look_store_other _ _ _ _ _ _ _ hs (hne _ _ ho)
 
 theorem act_memo_keeps (rc : C → K → A → R) (s : MSt K A C R) (t : Tid) (g : Gid) (h : s.memo g ≠ none) :
     (act rc s t).memo g ≠ none := by
@@ -159,21 +181,24 @@ theorem act_memo_keeps (rc : C → K → A → R) (s : MSt K A C R) (t : Tid) (g
     · split
       · exact h
       · split <;> exact lookup_keeps s.memo _ g ‹K› h
+    · split
+      · exact h
+      · split <;> exact lookup_keeps s.memo _ g ‹K› h
+    · split
+      · exact h
+      · split
+        · exact h
+        · rename_i m2 hs
+          exact store_keeps _ _ _ _ _ _ hs h
 
 /-! ### the invariant -/
 variable [DecidableEq A]
 
-/-- ghost discipline state of thread t after its next section (as `disciplinedFrom` steps it) -/
+/-- ghost discipline state of thread t after its next section (as `disciplinedFrom` steps it: a new operation is
+checked when the thread takes it up; the later sections of a whole query leave the ghost state alone) -/
 def ghostStep (s : MSt K A C R) (t : Tid) (d : Ghost K A) : Ghost K A :=
   match (s.th t).phase, (s.th t).prog with
-  | .idle, .alloc g _ :: _ => upd d g none
-  | .idle, .mutate g _ :: _ => upd d g none
-  | .idle, .drop g :: _ => upd d g none
-  | .idle, .clear g :: _ => upd d g (some fun _ => none)
-  | .idle, .query g k a :: _ =>
-    match d g with
-    | some f => upd d g (some (upd f k (some a)))
-    | none => d
+  | .idle, op :: _ => (ghostOf d op).getD d
   | _, _ => d
 
 structure TInv (rc : C → K → A → R) (s : MSt K A C R) (D : Tid → Ghost K A) : Prop where
@@ -183,6 +208,8 @@ structure TInv (rc : C → K → A → R) (s : MSt K A C R) (D : Tid → Ghost K
   computed from the graph's current content -/
   fresh : ∀ g t c f k r, s.live g = some (t, c) → D t g = some f → s.memo.look g k = some r →
     ∃ a, f k = some a ∧ r = rc c k a
+  /-- … and exists -/
+  ex : ∀ g t c f, s.live g = some (t, c) → D t g = some f → s.memo g ≠ none
   looked : ∀ t g k a, (s.th t).phase = .looked g k a →
     (∃ c, s.live g = some (t, c)) ∧ (∃ f, D t g = some f ∧ f k = some a) ∧ s.memo g ≠ none
   computed : ∀ t g k a r, (s.th t).phase = .computed g k a r →
@@ -193,6 +220,7 @@ structure OwnOk (rc : C → K → A → R) (t : Tid) (d' : Ghost K A) (x : Res K
   disc : disciplinedFrom d' x.me.prog = true
   fresh : ∀ g c f k r, x.live g = some (t, c) → d' g = some f → x.memo.look g k = some r →
     ∃ a, f k = some a ∧ r = rc c k a
+  ex : ∀ g c f, x.live g = some (t, c) → d' g = some f → x.memo g ≠ none
   looked : ∀ g k a, x.me.phase = .looked g k a →
     (∃ c, x.live g = some (t, c)) ∧ (∃ f, d' g = some f ∧ f k = some a) ∧ x.memo g ≠ none
   computed : ∀ g k a r, x.me.phase = .computed g k a r →
@@ -209,9 +237,44 @@ theorem ownOk_idle (rc : C → K → A → R) (s : MSt K A C R) (D : Tid → Gho
   fresh := by
     intro g c f k r hl hdg hlk
     exact inv.fresh g t c f k r hl (hf g c f hl hdg) hlk
+  ex := by
+    intro g c f hl hdg
+    exact inv.ex g t c f hl (hf g c f hl hdg)
   looked := by intro g k a h; cases h
   computed := by intro g k a r h; cases h
   safe := hev
+
+/-- the table entries seen after a lookup section of the owner, against the ghost state that records the lookup -/
+theorem lookup_section_fresh (rc : C → K → A → R) (s : MSt K A C R) (D : Tid → Ghost K A) (inv : TInv rc s D) (t : Tid)
+    (g : Gid) (k : K) (a : A) (c : C) (f : K → Option A) (hl : s.live g = some (t, c)) (hdg : D t g = some f)
+    (hcompat : ∀ a', f k = some a' → a' = a) :
+    ∀ g' c' f' k' r', s.live g' = some (t, c') → upd (D t) g (some (upd f k (some a))) g' = some f' →
+      (s.memo.lookup g k).1.look g' k' = some r' → ∃ a', f' k' = some a' ∧ r' = rc c' k' a' := by
+  intro g' c' f' k' r' h1 h2 h3
+  simp only [look_lookup_fst] at h3
+  by_cases hgg : g' = g
+  · subst hgg
+    simp only [upd_same, Option.some.injEq] at h2
+    subst h2
+    rw [hl] at h1; cases h1
+    obtain ⟨a0, e1, e2⟩ := inv.fresh g' t c f k' r' hl hdg h3
+    by_cases hkk : k' = k
+    · subst hkk
+      have := hcompat a0 e1
+      subst this
+      exact ⟨a0, by simp, e2⟩
+    · exact ⟨a0, by simp [hkk, e1], e2⟩
+  · rw [upd_other _ _ _ _ hgg] at h2
+    exact inv.fresh g' t c' f' k' r' h1 h2 h3
+
+theorem lookup_section_ex (rc : C → K → A → R) (s : MSt K A C R) (D : Tid → Ghost K A) (inv : TInv rc s D) (t : Tid)
+    (g : Gid) (k : K) (d' : Ghost K A) (hd' : ∀ g', g' ≠ g → d' g' = D t g') :
+    ∀ g' c' f', s.live g' = some (t, c') → d' g' = some f' → (s.memo.lookup g k).1 g' ≠ none := by
+  intro g' c' f' h1 h2
+  by_cases hgg : g' = g
+  · subst hgg; exact lookup_fst_ne_none _ _ _
+  · rw [hd' g' hgg] at h2
+    exact lookup_keeps _ _ _ _ (inv.ex g' t c' f' h1 h2)
 
 theorem act_own (rc : C → K → A → R) (s : MSt K A C R) (D : Tid → Ghost K A) (inv : TInv rc s D) (t : Tid) :
     OwnOk rc t (ghostStep s t (D t)) (act rc s t) := by
@@ -223,8 +286,9 @@ theorem act_own (rc : C → K → A → R) (s : MSt K A C R) (D : Tid → Ghost 
     have ha : act rc s t = ⟨s.live, s.memo, ⟨.computed g k a (rc c k a), (s.th t).prog⟩, .computedEv t⟩ := by
       simp [act, hph, owned_of_live hl]
     rw [hg, ha]
-    refine ⟨hdisc, ?_, ?_, ?_, trivial⟩
+    refine ⟨hdisc, ?_, ?_, ?_, ?_, trivial⟩
     · intro g' c' f' k' r' h1 h2 h3; exact inv.fresh g' t c' f' k' r' h1 h2 h3
+    · intro g' c' f' h1 h2; exact inv.ex g' t c' f' h1 h2
     · intro g' k' a' h; cases h
     · intro g' k' a' r' h
       cases h
@@ -236,7 +300,7 @@ theorem act_own (rc : C → K → A → R) (s : MSt K A C R) (D : Tid → Ghost 
     have ha : act rc s t = ⟨s.live, m2, ⟨.idle, (s.th t).prog⟩, .val t g k a r c false⟩ := by
       simp [act, hph, owned_of_live hl, hs]
     rw [hg, ha]
-    refine ⟨hdisc, ?_, ?_, ?_, hr⟩
+    refine ⟨hdisc, ?_, ?_, ?_, ?_, hr⟩
     · intro g' c' f' k' r' h1 h2 h3
       (try dsimp only at h1); (try dsimp only at h3)
       simp only [hlook] at h3
@@ -252,6 +316,8 @@ theorem act_own (rc : C → K → A → R) (s : MSt K A C R) (D : Tid → Ghost 
           exact inv.fresh g' t c f k' r' hl hdf h3
       · simp only [hgg, false_and, if_false] at h3
         exact inv.fresh g' t c' f' k' r' h1 h2 h3
+    · intro g' c' f' h1 h2
+      exact store_keeps _ _ _ _ _ _ hs (inv.ex g' t c' f' h1 h2)
     · intro g' k' a' h; cases h
     · intro g' k' a' r' h; cases h
   | idle =>
@@ -267,162 +333,160 @@ theorem act_own (rc : C → K → A → R) (s : MSt K A C R) (D : Tid → Ghost 
       exact ownOk_idle rc s D inv t (D t) [] _ rfl (fun _ _ _ _ h => h) trivial
     | cons op rest =>
       rw [hpr] at hdisc
-      cases op with
-      | alloc g c =>
-        have hg : ghostStep s t (D t) = upd (D t) g none := by simp [ghostStep, hph, hpr]
-        simp only [disciplinedFrom] at hdisc
+      simp only [disciplinedFrom] at hdisc
+      cases hgo : ghostOf (D t) op with
+      | none => simp [hgo] at hdisc
+      | some d' =>
+        simp only [hgo] at hdisc
+        have hg : ghostStep s t (D t) = d' := by simp [ghostStep, hph, hpr, hgo]
         rw [hg]
-        by_cases hn : (s.live g).isNone
-        · have ha : act rc s t = ⟨upd s.live g (some (t, c)), s.memo, ⟨.idle, rest⟩, .ok t⟩ := by
-            simp [act, hph, hpr, hn]
-          rw [ha]
-          refine ⟨hdisc, ?_, ?_, ?_, trivial⟩
+        -- a private operation or a clear that the thread may not perform: nothing changes
+        have hill : ∀ (gx : Gid), (∀ g', g' ≠ gx → d' g' = D t g') → owned s.live t gx = none →
+            OwnOk rc t d' ⟨s.live, s.memo, ⟨.idle, rest⟩, .illFormed t⟩ := by
+          intro gx hd' ho
+          apply ownOk_idle rc s D inv t d' rest (.illFormed t) hdisc _ trivial
+          intro g' c' f' h1 h2
+          by_cases hgg : g' = gx
+          · subst hgg; rw [owned_of_live h1] at ho; cases ho
+          · rwa [hd' g' hgg] at h2
+        -- `live` changes at gx only, the ghost state forgets gx
+        have hpriv : ∀ (gx : Gid) (v : Option (Tid × C)), d' = upd (D t) gx none →
+            OwnOk rc t d' ⟨upd s.live gx v, s.memo, ⟨.idle, rest⟩, .ok t⟩ := by
+          intro gx v hd'
+          subst hd'
+          refine ⟨hdisc, ?_, ?_, ?_, ?_, trivial⟩
           · intro g' c' f' k' r' h1 h2 h3
             (try dsimp only at h1); (try dsimp only at h3)
-            by_cases hgg : g' = g
+            by_cases hgg : g' = gx
             · subst hgg; simp at h2
             · rw [upd_other _ _ _ _ hgg] at h1 h2
               exact inv.fresh g' t c' f' k' r' h1 h2 h3
-          · intro g' k' a' h; cases h
-          · intro g' k' a' r' h; cases h
-        · have ha : act rc s t = ⟨s.live, s.memo, ⟨.idle, rest⟩, .illFormed t⟩ := by
-            simp [act, hph, hpr, hn]
-          rw [ha]
-          apply ownOk_idle rc s D inv t _ rest (.illFormed t) hdisc _ trivial
-          intro g' c' f' _ h2
-          by_cases hgg : g' = g
-          · subst hgg; simp at h2
-          · rwa [upd_other _ _ _ _ hgg] at h2
-      | mutate g c =>
-        have hg : ghostStep s t (D t) = upd (D t) g none := by simp [ghostStep, hph, hpr]
-        simp only [disciplinedFrom] at hdisc
-        rw [hg]
-        cases ho : owned s.live t g with
-        | some c0 =>
-          have ha : act rc s t = ⟨upd s.live g (some (t, c)), s.memo, ⟨.idle, rest⟩, .ok t⟩ := by
-            simp [act, hph, hpr, ho]
-          rw [ha]
-          refine ⟨hdisc, ?_, ?_, ?_, trivial⟩
-          · intro g' c' f' k' r' h1 h2 h3
-            (try dsimp only at h1); (try dsimp only at h3)
-            by_cases hgg : g' = g
+          · intro g' c' f' h1 h2
+            (try dsimp only at h1)
+            by_cases hgg : g' = gx
             · subst hgg; simp at h2
             · rw [upd_other _ _ _ _ hgg] at h1 h2
-              exact inv.fresh g' t c' f' k' r' h1 h2 h3
+              exact inv.ex g' t c' f' h1 h2
           · intro g' k' a' h; cases h
           · intro g' k' a' r' h; cases h
-        | none =>
-          have ha : act rc s t = ⟨s.live, s.memo, ⟨.idle, rest⟩, .illFormed t⟩ := by
-            simp [act, hph, hpr, ho]
-          rw [ha]
-          apply ownOk_idle rc s D inv t _ rest (.illFormed t) hdisc _ trivial
-          intro g' c' f' _ h2
-          by_cases hgg : g' = g
-          · subst hgg; simp at h2
-          · rwa [upd_other _ _ _ _ hgg] at h2
-      | drop g =>
-        have hg : ghostStep s t (D t) = upd (D t) g none := by simp [ghostStep, hph, hpr]
-        simp only [disciplinedFrom] at hdisc
-        rw [hg]
-        cases ho : owned s.live t g with
-        | some c0 =>
-          have ha : act rc s t = ⟨upd s.live g none, s.memo, ⟨.idle, rest⟩, .ok t⟩ := by
-            simp [act, hph, hpr, ho]
-          rw [ha]
-          refine ⟨hdisc, ?_, ?_, ?_, trivial⟩
-          · intro g' c' f' k' r' h1 h2 h3
-            (try dsimp only at h1); (try dsimp only at h3)
+        cases op with
+        | alloc g c =>
+          simp only [ghostOf, Option.some.injEq] at hgo
+          by_cases hn : (s.live g).isNone
+          · have ha : act rc s t = ⟨upd s.live g (some (t, c)), s.memo, ⟨.idle, rest⟩, .ok t⟩ := by
+              simp [act, hph, hpr, hn]
+            rw [ha]; exact hpriv g _ hgo.symm
+          · have ha : act rc s t = ⟨s.live, s.memo, ⟨.idle, rest⟩, .illFormed t⟩ := by
+              simp [act, hph, hpr, hn]
+            rw [ha]
+            subst hgo
+            apply ownOk_idle rc s D inv t _ rest (.illFormed t) hdisc _ trivial
+            intro g' c' f' _ h2
             by_cases hgg : g' = g
             · subst hgg; simp at h2
-            · rw [upd_other _ _ _ _ hgg] at h1 h2
-              exact inv.fresh g' t c' f' k' r' h1 h2 h3
-          · intro g' k' a' h; cases h
-          · intro g' k' a' r' h; cases h
-        | none =>
-          have ha : act rc s t = ⟨s.live, s.memo, ⟨.idle, rest⟩, .illFormed t⟩ := by
-            simp [act, hph, hpr, ho]
-          rw [ha]
-          apply ownOk_idle rc s D inv t _ rest (.illFormed t) hdisc _ trivial
-          intro g' c' f' _ h2
-          by_cases hgg : g' = g
-          · subst hgg; simp at h2
-          · rwa [upd_other _ _ _ _ hgg] at h2
-      | clear g =>
-        have hg : ghostStep s t (D t) = upd (D t) g (some fun _ => none) := by simp [ghostStep, hph, hpr]
-        simp only [disciplinedFrom] at hdisc
-        rw [hg]
-        cases ho : owned s.live t g with
-        | some c0 =>
-          have ha : act rc s t = ⟨s.live, s.memo.clear g, ⟨.idle, rest⟩, .ok t⟩ := by
-            simp [act, hph, hpr, ho]
-          rw [ha]
-          refine ⟨hdisc, ?_, ?_, ?_, trivial⟩
-          · intro g' c' f' k' r' h1 h2 h3
-            (try dsimp only at h1); (try dsimp only at h3)
-            simp only [look_clear] at h3
-            by_cases hgg : g' = g
-            · simp [hgg] at h3
-            · rw [upd_other _ _ _ _ hgg] at h2
-              simp only [hgg, if_false] at h3
-              exact inv.fresh g' t c' f' k' r' h1 h2 h3
-          · intro g' k' a' h; cases h
-          · intro g' k' a' r' h; cases h
-        | none =>
-          have ha : act rc s t = ⟨s.live, s.memo, ⟨.idle, rest⟩, .illFormed t⟩ := by
-            simp [act, hph, hpr, ho]
-          rw [ha]
-          refine ⟨hdisc, ?_, ?_, ?_, trivial⟩
-          · intro g' c' f' k' r' h1 h2 h3
-            (try dsimp only at h1); (try dsimp only at h3)
-            by_cases hgg : g' = g
-            · subst hgg; rw [owned_of_live h1] at ho; cases ho
-            · rw [upd_other _ _ _ _ hgg] at h2
-              exact inv.fresh g' t c' f' k' r' h1 h2 h3
-          · intro g' k' a' h; cases h
-          · intro g' k' a' r' h; cases h
-      | query g k a =>
-        simp only [disciplinedFrom] at hdisc
-        cases hdg : D t g with
-        | none => simp [hdg] at hdisc
-        | some f =>
-          simp only [hdg, Bool.and_eq_true] at hdisc
-          obtain ⟨hcompat, hdisc⟩ := hdisc
-          have hg : ghostStep s t (D t) = upd (D t) g (some (upd f k (some a))) := by simp [ghostStep, hph, hpr, hdg]
-          rw [hg]
+            · rwa [upd_other _ _ _ _ hgg] at h2
+        | mutate g c =>
+          simp only [ghostOf, Option.some.injEq] at hgo
+          cases ho : owned s.live t g with
+          | some c0 =>
+            have ha : act rc s t = ⟨upd s.live g (some (t, c)), s.memo, ⟨.idle, rest⟩, .ok t⟩ := by
+              simp [act, hph, hpr, ho]
+            rw [ha]; exact hpriv g _ hgo.symm
+          | none =>
+            have ha : act rc s t = ⟨s.live, s.memo, ⟨.idle, rest⟩, .illFormed t⟩ := by
+              simp [act, hph, hpr, ho]
+            rw [ha]
+            exact hill g (by intro g' hgg; rw [← hgo, upd_other _ _ _ _ hgg]) ho
+        | drop g =>
+          simp only [ghostOf, Option.some.injEq] at hgo
+          cases ho : owned s.live t g with
+          | some c0 =>
+            have ha : act rc s t = ⟨upd s.live g none, s.memo, ⟨.idle, rest⟩, .ok t⟩ := by
+              simp [act, hph, hpr, ho]
+            rw [ha]; exact hpriv g _ hgo.symm
+          | none =>
+            have ha : act rc s t = ⟨s.live, s.memo, ⟨.idle, rest⟩, .illFormed t⟩ := by
+              simp [act, hph, hpr, ho]
+            rw [ha]
+            exact hill g (by intro g' hgg; rw [← hgo, upd_other _ _ _ _ hgg]) ho
+        | clear g =>
+          simp only [ghostOf, Option.some.injEq] at hgo
+          cases ho : owned s.live t g with
+          | some c0 =>
+            have ha : act rc s t = ⟨s.live, s.memo.clear g, ⟨.idle, rest⟩, .ok t⟩ := by
+              simp [act, hph, hpr, ho]
+            rw [ha]
+            subst hgo
+            refine ⟨hdisc, ?_, ?_, ?_, ?_, trivial⟩
+            · intro g' c' f' k' r' h1 h2 h3
+              (try dsimp only at h1); (try dsimp only at h3)
+              simp only [look_clear] at h3
+              by_cases hgg : g' = g
+              · simp [hgg] at h3
+              · rw [upd_other _ _ _ _ hgg] at h2
+                simp only [hgg, if_false] at h3
+                exact inv.fresh g' t c' f' k' r' h1 h2 h3
+            · intro g' c' f' h1 h2
+              (try dsimp only at h1)
+              by_cases hgg : g' = g
+              · subst hgg; exact clear_ne_none _ _
+              · rw [upd_other _ _ _ _ hgg] at h2
+                exact clear_keeps _ _ _ (inv.ex g' t c' f' h1 h2)
+            · intro g' k' a' h; cases h
+            · intro g' k' a' r' h; cases h
+          | none =>
+            have ha : act rc s t = ⟨s.live, s.memo, ⟨.idle, rest⟩, .illFormed t⟩ := by
+              simp [act, hph, hpr, ho]
+            rw [ha]
+            exact hill g (by intro g' hgg; rw [← hgo, upd_other _ _ _ _ hgg]) ho
+        | store g k a =>
+          obtain ⟨f, hdg, hfk, hd'⟩ := ghostOf_store_some (D t) d' g k a hgo
+          subst hd'
           cases ho : owned s.live t g with
           | none =>
             have ha : act rc s t = ⟨s.live, s.memo, ⟨.idle, rest⟩, .illFormed t⟩ := by
               simp [act, hph, hpr, ho]
             rw [ha]
-            refine ⟨hdisc, ?_, ?_, ?_, trivial⟩
-            · intro g' c' f' k' r' h1 h2 h3
-              (try dsimp only at h1); (try dsimp only at h3)
-              by_cases hgg : g' = g
-              · subst hgg; rw [owned_of_live h1] at ho; cases ho
-              · rw [upd_other _ _ _ _ hgg] at h2
-                exact inv.fresh g' t c' f' k' r' h1 h2 h3
-            · intro g' k' a' h; cases h
-            · intro g' k' a' r' h; cases h
+            exact ownOk_idle rc s D inv t _ rest (.illFormed t) hdisc (fun _ _ _ _ h => h) trivial
           | some c =>
             have hl := owned_some ho
-            -- the entries of the table after the lookup section are those before it
-            have hfresh : ∀ g' c' f' k' r', s.live g' = some (t, c') → upd (D t) g (some (upd f k (some a))) g' = some f' →
-                (s.memo.lookup g k).1.look g' k' = some r' → (k' = k → g' = g → r' = rc c k a) →
-                ∃ a', f' k' = some a' ∧ r' = rc c' k' a' := by
-              intro g' c' f' k' r' h1 h2 h3 hkey
-              simp only [look_lookup_fst] at h3
+            obtain ⟨m2, hs, hne, hlook⟩ := store_some s.memo g k (rc c k a) (inv.ex g t c f hl hdg)
+            have ha : act rc s t = ⟨s.live, m2, ⟨.idle, rest⟩, .val t g k a (rc c k a) c false⟩ := by
+              simp [act, hph, hpr, ho, hs]
+            rw [ha]
+            refine ⟨hdisc, ?_, ?_, ?_, ?_, rfl⟩
+            · intro g' c' f' k' r' h1 h2 h3
+              (try dsimp only at h1); (try dsimp only at h3)
+              simp only [hlook] at h3
               by_cases hgg : g' = g
               · subst hgg
-                simp only [upd_same, Option.some.injEq] at h2
-                subst h2
                 rw [hl] at h1; cases h1
+                rw [hdg] at h2; cases h2
                 by_cases hkk : k' = k
                 · subst hkk
-                  exact ⟨a, by simp, hkey rfl rfl⟩
-                · obtain ⟨a2, e1, e2⟩ := inv.fresh g' t c f k' r' hl hdg h3
-                  exact ⟨a2, by simp [hkk, e1], e2⟩
-              · rw [upd_other _ _ _ _ hgg] at h2
+                  simp only [and_self, if_true, Option.some.injEq] at h3
+                  exact ⟨a, hfk, h3.symm⟩
+                · simp only [hkk, and_false, if_false] at h3
+                  exact inv.fresh g' t c f k' r' hl hdg h3
+              · simp only [hgg, false_and, if_false] at h3
                 exact inv.fresh g' t c' f' k' r' h1 h2 h3
+            · intro g' c' f' h1 h2
+              exact store_keeps _ _ _ _ _ _ hs (inv.ex g' t c' f' h1 h2)
+            · intro g' k' a' h; cases h
+            · intro g' k' a' r' h; cases h
+        | lookup g k a =>
+          obtain ⟨f, hdg, hcompat, hd'⟩ := ghostOf_lookup_some (D t) d' g k a hgo
+          cases ho : owned s.live t g with
+          | none =>
+            have ha : act rc s t = ⟨s.live, s.memo, ⟨.idle, rest⟩, .illFormed t⟩ := by
+              simp [act, hph, hpr, ho]
+            rw [ha]
+            exact hill g (by intro g' hgg; rw [hd', upd_other _ _ _ _ hgg]) ho
+          | some c =>
+            have hl := owned_some ho
+            have hex := lookup_section_ex rc s D inv t g k d' (by intro g' hgg; rw [hd', upd_other _ _ _ _ hgg])
+            subst hd'
+            have hfresh := lookup_section_fresh rc s D inv t g k a c f hl hdg hcompat
             cases hlk : (s.memo.lookup g k).2 with
             | some r =>
               have ha : act rc s t = ⟨s.live, (s.memo.lookup g k).1, ⟨.idle, rest⟩, .val t g k a r c true⟩ := by
@@ -430,32 +494,49 @@ theorem act_own (rc : C → K → A → R) (s : MSt K A C R) (D : Tid → Ghost 
               rw [ha]
               have hlook : s.memo.look g k = some r := by rw [← lookup_snd, hlk]
               obtain ⟨a', hfa, hr⟩ := inv.fresh g t c f k r hl hdg hlook
-              rw [hfa] at hcompat
-              have haa : a' = a := by simpa using hcompat
+              have haa := hcompat a' hfa
               subst haa
-              refine ⟨hdisc, ?_, ?_, ?_, hr⟩
-              · intro g' c' f' k' r' h1 h2 h3
-                (try dsimp only at h1); (try dsimp only at h3)
-                apply hfresh g' c' f' k' r' h1 h2 h3
-                intro hk' hg'
-                subst hk' hg'
-                simp only [look_lookup_fst] at h3
-                rw [hlook] at h3; cases h3; exact hr
+              refine ⟨hdisc, hfresh, hex, ?_, ?_, hr⟩
+              · intro g' k' a'' h; cases h
+              · intro g' k' a'' r' h; cases h
+            | none =>
+              have ha : act rc s t = ⟨s.live, (s.memo.lookup g k).1, ⟨.idle, rest⟩, .missed t⟩ := by
+                simp [act, hph, hpr, ho, hlk]
+              rw [ha]
+              refine ⟨hdisc, hfresh, hex, ?_, ?_, trivial⟩
+              · intro g' k' a'' h; cases h
+              · intro g' k' a'' r' h; cases h
+        | query g k a =>
+          rw [ghostOf_query_lookup] at hgo
+          obtain ⟨f, hdg, hcompat, hd'⟩ := ghostOf_lookup_some (D t) d' g k a hgo
+          cases ho : owned s.live t g with
+          | none =>
+            have ha : act rc s t = ⟨s.live, s.memo, ⟨.idle, rest⟩, .illFormed t⟩ := by
+              simp [act, hph, hpr, ho]
+            rw [ha]
+            exact hill g (by intro g' hgg; rw [hd', upd_other _ _ _ _ hgg]) ho
+          | some c =>
+            have hl := owned_some ho
+            have hex := lookup_section_ex rc s D inv t g k d' (by intro g' hgg; rw [hd', upd_other _ _ _ _ hgg])
+            subst hd'
+            have hfresh := lookup_section_fresh rc s D inv t g k a c f hl hdg hcompat
+            cases hlk : (s.memo.lookup g k).2 with
+            | some r =>
+              have ha : act rc s t = ⟨s.live, (s.memo.lookup g k).1, ⟨.idle, rest⟩, .val t g k a r c true⟩ := by
+                simp [act, hph, hpr, ho, hlk]
+              rw [ha]
+              have hlook : s.memo.look g k = some r := by rw [← lookup_snd, hlk]
+              obtain ⟨a', hfa, hr⟩ := inv.fresh g t c f k r hl hdg hlook
+              have haa := hcompat a' hfa
+              subst haa
+              refine ⟨hdisc, hfresh, hex, ?_, ?_, hr⟩
               · intro g' k' a'' h; cases h
               · intro g' k' a'' r' h; cases h
             | none =>
               have ha : act rc s t = ⟨s.live, (s.memo.lookup g k).1, ⟨.looked g k a, rest⟩, .missed t⟩ := by
                 simp [act, hph, hpr, ho, hlk]
               rw [ha]
-              have hlook : s.memo.look g k = none := by rw [← lookup_snd, hlk]
-              refine ⟨hdisc, ?_, ?_, ?_, trivial⟩
-              · intro g' c' f' k' r' h1 h2 h3
-                (try dsimp only at h1); (try dsimp only at h3)
-                apply hfresh g' c' f' k' r' h1 h2 h3
-                intro hk' hg'
-                subst hk' hg'
-                simp only [look_lookup_fst] at h3
-                rw [hlook] at h3; cases h3
+              refine ⟨hdisc, hfresh, hex, ?_, ?_, trivial⟩
               · intro g' k' a' h
                 cases h
                 exact ⟨⟨c, hl⟩, ⟨upd f k (some a), upd_same _ _ _, upd_same _ _ _⟩, lookup_fst_ne_none s.memo g k⟩
@@ -464,7 +545,7 @@ theorem act_own (rc : C → K → A → R) (s : MSt K A C R) (D : Tid → Ghost 
 theorem tinv_step (rc : C → K → A → R) (s : MSt K A C R) (D : Tid → Ghost K A) (inv : TInv rc s D) (t : Tid) :
     TInv rc (stepT rc s t).1 (upd D t (ghostStep s t (D t))) ∧ (stepT rc s t).2.Safe rc := by
   have own := act_own rc s D inv t
-  refine ⟨⟨?_, ?_, ?_, ?_⟩, own.safe⟩
+  refine ⟨⟨?_, ?_, ?_, ?_, ?_⟩, own.safe⟩
   · intro t'
     by_cases ht : t' = t
     · subst ht; simpa [stepT] using own.disc
@@ -479,6 +560,15 @@ theorem tinv_step (rc : C → K → A → R) (s : MSt K A C R) (D : Tid → Ghos
       have hl := act_live_other' rc s t t' g c h1 ht
       rw [act_memo_other rc s t t' g c hl ht k] at h3
       exact inv.fresh g t' c f k r hl h2 h3
+  · intro g t' c f h1 h2
+    simp only [stepT] at h1 ⊢
+    by_cases ht : t' = t
+    · subst ht
+      rw [upd_same] at h2
+      exact own.ex g c f h1 h2
+    · rw [upd_other _ _ _ _ ht] at h2
+      have hl := act_live_other' rc s t t' g c h1 ht
+      exact act_memo_keeps rc s t g (inv.ex g t' c f hl h2)
   · intro t' g k a h
     simp only [stepT] at h ⊢
     by_cases ht : t' = t
@@ -516,6 +606,7 @@ theorem tinv_start (rc : C → K → A → R) (s : MSt K A C R) (hidle : ∀ t, 
     (hd : ∀ t, Disciplined (s.th t).prog) : TInv rc s (fun _ _ => none) where
   disc := hd
   fresh := by intro g t c f k r _ h; cases h
+  ex := by intro g t c f _ h; cases h
   looked := by intro t g k a h; rw [hidle t] at h; cases h
   computed := by intro t g k a r h; rw [hidle t] at h; cases h
 
